@@ -116,6 +116,7 @@ def check(ctx):
     check_dataset_keys_as_given(ctx)
     check_count_thresholds(ctx)
     check_row_per_leaf(ctx)
+    check_row_extent_is_file_length(ctx)
     # what is summed over the leaves becomes a mean and a variance by the
     # textbook formulas (rule of C11)
     from .C11 import check_moments
@@ -1258,3 +1259,77 @@ def check_row_per_leaf(ctx, rule='R-COVER/row-per-leaf'):
     if n < 2:
         raise AnalysisError(f'only {n} row-numbering tables found in the '
                             'statistics front ends')
+
+
+def check_row_extent_is_file_length(ctx, rule='R-PROV/row-extent'):
+    """the chunks handed to the workers tile rows [0, N) of each file
+    (R-TILE); N has to be the number of rows *of the file*: the symbolic
+    value of the extent of the chunking loop is the length of the obs index
+    as read from that file, not a count of a selection of it (cells named
+    by the taxonomy, cells in cell_set).  With a smaller N the trailing
+    rows of the file are never handed to a worker."""
+    db = ctx.db
+    fi = db.fn('diff_exp.precompute_from_anndata:'
+               '_precompute_summary_stats_from_h5ad_and_lookup')
+    ctx.touch(fi)
+    cfg = cfg_of(fi)
+    rd = rd_of(fi)
+    ex = Expander(fi)
+    n = 0
+    for node in cfg.nodes:
+        if node.kind != 'for' or node.id not in rd.live:
+            continue
+        it = node.ast.iter
+        if not (isinstance(it, ast.Call) and getattr(
+                it.func, 'id', None) == 'range' and len(it.args) == 3):
+            continue
+        step = ex.expand(it.args[2], node.id)
+        if not any(isinstance(x, tuple) and x and x[0] == 'param'
+                   and 'rows' in x[1] for x in T.subterms(step)):
+            continue
+        n += 1
+        t = ex.expand(it.args[1], node.id)
+        # an extent looked up in a per-file table: judge what the table
+        # was filled with
+        e_ = it.args[1]
+        if isinstance(e_, ast.Name):
+            ds = [d for d in rd.reaching(e_.id, node.id)
+                  if d.kind == 'assign' and d.value is not None]
+            if len(ds) == 1:
+                e_ = ds[0].value
+        if isinstance(e_, ast.Subscript) and isinstance(e_.value, ast.Name):
+            stored = []
+            for n2 in cfg.nodes:
+                if n2.kind == 'stmt' and n2.id in rd.live and isinstance(
+                        n2.ast, ast.Assign) and isinstance(
+                            n2.ast.targets[0], ast.Subscript) \
+                        and isinstance(n2.ast.targets[0].value, ast.Name) \
+                        and n2.ast.targets[0].value.id == e_.value.id:
+                    stored.append(ex.expand(n2.ast.value, n2.id))
+            if stored:
+                t = stored[0] if len(stored) == 1 else (
+                    'phi', frozenset(stored))
+        subs = list(T.subterms(t))
+        reads_obs = any(isinstance(x, tuple) and x and x[0] == 'call'
+                        and T.call_name(x) == 'read_df_from_h5ad'
+                        for x in subs)
+        is_len = any(isinstance(x, tuple) and x and x[0] == 'call'
+                     and T.call_name(x) == 'len' for x in subs)
+        selects = sorted({T.call_name(x) for x in subs
+                          if isinstance(x, tuple) and x and x[0] == 'call'
+                          and T.call_name(x) in (
+                              'intersection', 'difference', 'isin', 'in1d',
+                              'where', 'sum', 'count_nonzero', 'unique',
+                              'set', 'min', 'max')})
+        filtered = any(isinstance(x, tuple) and x and x[0] == 'comp'
+                       and any(g[2] for g in x[3]) for x in subs)
+        ok = reads_obs and is_len and not selects and not filtered
+        ctx.ob(rule, f'{fi.name}:range#{n - 1}', fi.loc(node.ast), ok,
+               'the rows chunked are all rows of the file' if ok else
+               f'the extent of the chunking loop is {fmt_term(t)[:90]}, '
+               'not the number of rows of the file: rows beyond that '
+               'count are never handed to a worker, although labelled '
+               'cells can be anywhere in the file')
+    if n == 0:
+        raise AnalysisError('the chunking loop of the statistics stage was '
+                            'not found')
